@@ -156,6 +156,14 @@ def framed(spec: Spec, vals: dict, obs: dict, info: dict) -> list[str]:
             continue
         if o["start"] > o["end"]:
             fails.append(f"C06 {tid}: start {o['start']} > end {o['end']}")
+        if t.effort is None and not t.alloc and t.duration is None and o["forward"] is not False and t.start is None and t.end is None:
+            # a milestone has start = end at its dependency bound
+            b = dep_bound(spec, vals, obs, tid)
+            if o["start"] != o["end"]:
+                fails.append(f"C06 milestone {tid}: start {o['start']} != end {o['end']}")
+            elif b is not None and (o["start"] - b > TOL or b - o["start"] > TOL):
+                fails.append(f"C06 milestone {tid}: placed at {o['start']}, its dependency bound is {b}")
+            continue
         slots: dict[int, Any] = {}
         for r_id, r in obs["res"].items():
             for slot, lst in r["ledger"].items():
